@@ -14,7 +14,7 @@ from bctmc.tally import Tally
 
 PROPERTY = 'C04'
 RULE = ('for each deterministic measure: all labelled inputs of its class on 4 nodes (binary digraphs 4096, binary graphs 64, '
-        'weights {1,2} 729, signed {-1,0,1} 729; with every set partition where a community vector is an argument) x all 24 '
+        'weights {1,2} 729, signed {-1,0,1} 729; weights {.4,.3,.1+.2} (two values one rounding error apart; thorough also decimal {.1,.2,.3,.4}) on 4-node graphs / 3-node digraphs for the path-based weighted measures; with every set partition where a community vector is an argument) x all 24 '
         'renumberings (thorough: binary graphs on 5 nodes x 120 renumberings); non-trivial = (graph, renumbering) pairs where '
         'the renumbered graph differs from the graph')
 ASSUMPTIONS = ['outputs documented as order-dependent choices are excluded: Pmat/hops of distance_wei_floyd and B of '
@@ -111,6 +111,8 @@ FAMS = {
     'dir4': (True, 4, (0, 1)), 'und4': (False, 4, (0, 1)), 'und12': (False, 4, (0, 1, 2)),
     'sign': (False, 4, (-1, 0, 1)), 'und5': (False, 5, (0, 1)), 'dirw3': (True, 3, (0, 1, 2)),
     'dirci': (True, 4, (0, 1)),
+    'unddec4': (False, 4, (0, 0.1, 0.2, 0.3, 0.4)), 'dirdec3': (True, 3, (0, 0.1, 0.2, 0.3, 0.4)),
+    'undulp4': (False, 4, (0, 0.4, 0.3, 0.1 + 0.2)),     # two weights one rounding error apart
 }
 
 
@@ -128,6 +130,12 @@ def plan(ctx):
         units.append(('plain', 'und12', 'UND', name))
         if ctx.thorough:
             units.append(('plain', 'und5', 'UND', name))
+    for name in ('distance_wei[D]', 'betweenness_wei', 'edge_betweenness_wei', 'efficiency_wei[local]'):
+        units.append(('plain', 'undulp4', 'UND', name))     # rounding-level near-ties
+        if THOROUGH[0]:
+            units.append(('plain', 'unddec4', 'UND', name))
+            if name in DIR:
+                units.append(('plain', 'dirdec3', 'DIR', name))
     for name in SIGNED:
         units.append(('plain', 'sign', 'SIGNED', name))
     for name in WITH_CI:
